@@ -273,6 +273,28 @@ func genS(prop string) func(r *sim.Rng, tier string) any {
 		if r.Bool(0.12) {
 			p.Prelude = pick(r, []string{"same", "other"})
 		}
+		if r.Bool(0.012) && len(p.Certs) > 0 && len(p.Faults) == 0 {
+			// a long-lived shim: hundreds of changes of the in-memory certificate table before the usual history
+			x := &p.Certs[0]
+			x.Window, x.T = "forever", 0
+			has := false
+			for _, role := range p.Init {
+				if role == x.Key {
+					has = true
+				}
+			}
+			if !has {
+				p.Init = append(p.Init, x.Key)
+			}
+			var long []SStep
+			for k := 0; k < r.Range(140, 330); k++ {
+				long = append(long, SStep{Op: "addhard", Role: x.Role}, SStep{Op: pick(r, []string{"remove", "remove", "removeall"}), Role: x.Role})
+				if long[len(long)-1].Op == "removeall" {
+					long = append(long, SStep{Op: "upadd", Role: x.Key})
+				}
+			}
+			p.Steps = append(long, p.Steps...)
+		}
 		if prop == "C10" && r.Bool(0.08) {
 			p.Construct = pick(r, append([]string{"refuse_dial"}, refagent.AllFaults...))
 			p.Steps = p.Steps[:min(len(p.Steps), 4)]
